@@ -184,10 +184,20 @@ class G:
     def U(self, cx: Cx):
         if not self.spend() or cx.depth > self.opts.get("max_depth", 7):
             return self.U_leaf(cx)
-        k = self.i(0, 29)
+        k = self.i(0, 30)
         o = cx.operand()
         L = self.level
         if k <= 5:
+            return self.U_leaf(cx)
+        if k == 30:
+            if L >= 5 and self.opts.get("wideratio", True):
+                # WideRatio over 1..4 numerator and 1..3 denominator factors; factors are arbitrary (compound) expressions
+                nn, nd = self.pick([1, 2, 3, 3, 4]), self.pick([1, 1, 2, 3])
+                if nn == 1 and nd == 1:
+                    nd = 2
+                nums = [self.U(o) if self.chance(7) else ["int", self.pick([1, 2, 3, 1000, 2**32])] for _ in range(nn)]
+                dens = [["nary", "Add", [self.U(o), ["int", 1]]] if self.chance(6) else ["int", self.pick([1, 2, 7, 2**31])] for _ in range(nd)]
+                return ["wideratio", nums, dens]
             return self.U_leaf(cx)
         if k <= 8:
             name = self.pick(["Add", "Add", "Mul", "And", "Or"])
